@@ -176,4 +176,35 @@ theorem streamIds_eq_cmdAt (s : Store) (ts : List Loc) :
           congr 2; omega
       · simp [Seg.getFrom, hc]
 
+/-! ## the closure property of a to-send list -/
+
+/-- Closure property of a `to_send` list relative to a set `cov` of covered locations (the
+ancestors-or-self of the peer's sample): every entry points into its segment, and every parent of
+the entry's first command is covered or lies in the range of an *earlier* entry. -/
+def ToSendOK (s : Store) (cov : Loc → Prop) (ts : List Loc) : Prop :=
+  ∀ k e, ts[k]? = some e →
+    (∃ g, s.seg? e.seg = some g ∧ g.first ≤ e.mc) ∧
+    ∀ p ∈ s.parents e, cov p ∨
+      ∃ (k' : Nat) (e' : Loc), k' < k ∧ ts[k']? = some e' ∧ e'.seg = p.seg ∧ e'.mc ≤ p.mc ∧ s.valid p = true
+
+theorem mem_entryLocs {s : Store} {e x : Loc} :
+    x ∈ entryLocs s e ↔ x.seg = e.seg ∧ e.mc ≤ x.mc ∧ x.mc < e.mc + (entryIds s e).length := by
+  unfold entryLocs
+  simp only [List.mem_map, List.mem_range]
+  constructor
+  · rintro ⟨j, hj, rfl⟩; exact ⟨rfl, by simp, by simp; omega⟩
+  · rintro ⟨h1, h2, h3⟩
+    refine ⟨x.mc - e.mc, by omega, ?_⟩
+    cases x; simp at h1 h2 ⊢; exact ⟨by omega, h1.symm⟩
+
+/-- a valid location of the same segment at or above an entry's start is in the entry's range -/
+theorem mem_entryLocs_of_valid {s : Store} {e p : Loc} (hseg : e.seg = p.seg) (hle : e.mc ≤ p.mc)
+    (hv : s.valid p = true) (hfirst : ∃ g, s.seg? e.seg = some g ∧ g.first ≤ e.mc) :
+    p ∈ entryLocs s e := by
+  obtain ⟨g, hg, h1⟩ := hfirst
+  obtain ⟨g', hg', _, h3⟩ := valid_iff.mp hv
+  rw [← hseg, hg] at hg'; cases hg'
+  rw [mem_entryLocs, entryIds_length_valid hg h1]
+  exact ⟨hseg.symm, hle, by omega⟩
+
 end AranyaV.Sync
